@@ -31,13 +31,19 @@ func (c *checkCtx) abstractLemmas(names ...string) {
 			u1 := Take(E(v), k)
 			u2 := E(v)
 			tail := Drop(E(v), k)
+			rtInst := func(u, ok, val, rest, x, r *Term) *Term { // the instance (x, r) of rt, with cat(s, empty) = s applied
+				return Implies(And(canon(x), Eq(u, Cat(E(x), r))), And(ok, Eq(val, x), Eq(rest, r)))
+			}
 			hyps := []*Term{canon(v), Le(IntC(0), k), Lt(k, Len(E(v))),
-				re(u1, ok1, val1, rest1),                                 // the run on the truncated input, if it succeeds, satisfies re
-				rt(Cat(u2, Empty), ok2, val2, rest2), rt(u2, ok2, val2, rest2), // a run on the full encoding satisfies rt (safe: it exists)
+				re(u1, ok1, val1, rest1), // the run on the truncated input, if it succeeds, satisfies re
+				rt(u2, ok2, val2, rest2), // a run on the full encoding (it exists: safe) satisfies rt for every ghost (x, r) ...
+				rtInst(u2, ok2, val2, rest2, val1, Cat(rest1, tail)), // ... in particular for (val1, rest1 ++ tail)
+				rtInst(u2, ok2, val2, rest2, v, Empty),               // ... and for (v, empty)
 				Eq(u2, Cat(u1, tail)),
+				Eq(Len(tail), Sub(Len(E(v)), k)),
 			}
 			c.obs = append(c.obs, &Obligation{Name: "lemma/trunc", Func: "lemma/trunc", Kind: "lemma", Props: []string{c.prop}, Hyps: hyps, Goal: Not(ok1),
-				Hints:  []*Term{Cat(E(val1), Cat(rest1, tail)), Cat(E(v), Empty), tail},
+				Hints:  []*Term{Cat(E(val1), Cat(rest1, tail)), tail},
 				Detail: "from rt, re and the existence of a run: decoding a strict prefix of a valid encoding does not succeed (format-abstract)"})
 		case "receiver_independent":
 			u := Var("u", SSeq)
